@@ -310,7 +310,7 @@ def _build_catalogue_body():
     from pyubx2.ubxtypes_configdb import UBX_CONFIG_DATABASE  # pylint: disable=import-outside-toplevel
 
     rng = core.stream(13, "catalogue")
-    ops, fam = [], {"parse": [], "aborted": [], "new": [], "cfg": [], "tp5": [], "mutate": [], "inspect": [], "variant": [], "read": [], "eqv": [], "arrays": []}
+    ops, fam = [], {"parse": [], "aborted": [], "new": [], "cfg": [], "tp5": [], "mutate": [], "inspect": [], "variant": [], "read": [], "eqv": [], "arrays": [], "dupkey": []}
     pool_src = []
 
     def add(op, *families):
@@ -460,6 +460,21 @@ def _build_catalogue_body():
         add({"o": "cfgset", "layers": 1, "txn": 0, "data": [[name, enc(val)], [kid, enc(val)]]}, "cfg")
         add({"o": "cfgdel", "layers": 2, "txn": 1, "keys": [name, kid]}, "cfg")
         add({"o": "cfgpoll", "layer": 0, "pos": 0, "keys": [kid, name]}, "cfg")
+    # key ids that occur more than once in the shipped database (found by scanning it), looked up repeatedly
+    seen_ids, dup_ids = {}, []
+    for name, (kid, typ) in UBX_CONFIG_DATABASE.items():
+        if kid in seen_ids:
+            dup_ids.append((kid, typ, seen_ids[kid], name))
+        else:
+            seen_ids[kid] = name
+    for kid, typ, name1, name2 in dup_ids[:4]:
+        size = int(typ[1:])
+        body = bytes(4) + kid.to_bytes(4, "little") + bytes(size)
+        for _ in range(2):
+            add({"o": "parse", "hex": W.ubx_frame(0x06, 0x8B, body).hex(), "mm": 0, "val": 1, "pbf": 1}, "parse", "cfg", "dupkey")
+            add({"o": "cfgpoll", "layer": 0, "pos": 0, "keys": [kid, kid]}, "cfg", "dupkey")
+            add({"o": "cfgset", "layers": 1, "txn": 0, "data": [[name1, 0 if typ[0] in "UEIL" else enc(bytes(size))], [name2, 0 if typ[0] in "UEIL" else enc(bytes(size))]]}, "cfg", "dupkey")
+            add({"o": "parse", "hex": W.ubx_frame(0x06, 0x8A, body + kid.to_bytes(4, "little") + bytes(size)).hex(), "mm": 1, "val": 1, "pbf": 1}, "parse", "cfg", "dupkey")
     # undocumented key ids (size codes 1..5) and CFG-VALGET / CFG-VALSET frames carrying them
     for kid, val in ((0x10FE0001, b"\x01"), (0x20FE0002, b"\x02"), (0x30FE0003, b"\x03\x00"), (0x40FE0004, b"\x04\x00\x00\x00"), (0x50FE0005, bytes(8))):
         add({"o": "cfgset", "layers": 1, "txn": 0, "data": [[kid, enc(val)]]}, "cfg", "variant")
@@ -719,6 +734,7 @@ def _exec_scenario(scn, goldens, sched_seed=None):
             )
             recorded = baton.recorded
             stats.hit("thread_switches", len(recorded))
+            stats.hit("lock_handoffs", baton.lock_yields)
             stats.hit("steps", baton.steps)
             for site, n in baton.sites.items():
                 fnname = site.split(":")[1] if ":" in site else site
@@ -731,7 +747,9 @@ def _exec_scenario(scn, goldens, sched_seed=None):
                         stats.hit("ops")
                         if r[0] == "exc":
                             stats.hit("aborted_ops")
-            if baton.aborted:
+            if baton.deadlock:
+                verdict = ("threads_deadlock", f"after {baton.lock_yields} lock hand-offs no thread can proceed: a lock of the library is held by a thread that has finished or waits for it itself")
+            elif baton.aborted:
                 stats.hit("step_cap_reached")  # harness limit, not a verdict
             elif results_bad:
                 verdict = results_bad[0][2]
@@ -826,7 +844,7 @@ def _pick_ops(rng, cat, n, flavour):
         elif flavour == "mutate" and roll < 0.5:
             i = rng.choice(fam["mutate"])
         elif flavour == "cfg" and roll < 0.7:
-            i = rng.choice(fam["cfg"])
+            i = rng.choice(fam["dupkey"]) if fam["dupkey"] and rng.random() < 0.3 else rng.choice(fam["cfg"])
         elif flavour == "arrays" and roll < 0.7 and fam["arrays"]:
             j = rng.randrange(len(fam["arrays"]))
             i = fam["arrays"][min(max(j + rng.randrange(-3, 4), 0), len(fam["arrays"]) - 1)]
